@@ -65,10 +65,11 @@ pub fn spec(args: &[String]) -> i32 {
         groups[pg].rule[pl] = fault.clone();
         let o = guarded(|| asca::run(&groups, &words, &[], &[]).map(|_| ()).map_err(|e| { LAST.with(|c| *c.borrow_mut() = Some(e.clone())); e }));
         let Out::Err(kind) = &o else { st.inc(&format!("c17.fault_not_an_error.{}", o.class().split(':').next().unwrap_or("?"))); continue };
-        // the planted line must be the one that fails: the list cut right after it fails too, the list cut right before it does not
+        // "exactly one line of otherwise valid input is invalid": with the planted line blanked out (same numbering) everything runs,
+        // and the list cut right after the planted line already fails
         let mut upto: Vec<RuleGroup> = groups[..=pg].to_vec(); upto[pg].rule.truncate(pl + 1);
-        let mut before: Vec<RuleGroup> = groups[..=pg].to_vec(); before[pg].rule.truncate(pl);
-        if !matches!(guarded(|| asca::run(&upto, &words, &[], &[])), Out::Err(_)) || !matches!(guarded(|| asca::run(&before, &words, &[], &[])), Out::Ok(_)) { st.inc("c17.fault_fired_elsewhere"); continue }
+        let mut without: Vec<RuleGroup> = groups.to_vec(); without[pg].rule[pl] = String::new();
+        if !matches!(guarded(|| asca::run(&upto, &words, &[], &[])), Out::Err(_)) || !matches!(guarded(|| asca::run(&without, &words, &[], &[])), Out::Ok(_)) { st.inc("c17.fault_fired_elsewhere"); continue }
         let err: Error = LAST.with(|c| c.borrow_mut().take()).expect("error stored");
         st.inc("c17.cases"); st.inc(&format!("c17.kind.{}", err_kind(kind)));
         let is_rule = matches!(err, Error::RuleSyn(_) | Error::RuleRun(_));
